@@ -98,6 +98,7 @@ class Decorator(behaviour.Behaviour):
 
     Raises:
         TypeError: if the child is not an instance of :class:`~py_trees.behaviour.Behaviour`
+        RuntimeError: if the child already has a parent
     """
 
     def __init__(self, name: str, child: behaviour.Behaviour):
@@ -105,6 +106,12 @@ class Decorator(behaviour.Behaviour):
         if not isinstance(child, behaviour.Behaviour):
             raise TypeError(
                 "A decorator's child must be an instance of py_trees.behaviours.Behaviour"
+            )
+        if child.parent is not None:
+            raise RuntimeError(
+                "behaviour '{}' already has parent '{}'".format(
+                    child.name, child.parent.name
+                )
             )
         # Initialise
         super().__init__(name=name)
